@@ -486,6 +486,11 @@ def dispatch (tbl : DbTable) (line : String) : String :=
       | .pfx p _ => some s!"{hexEncode lit}={if Spec.UnitRef.refPrefix lit == some p then "OK" else "BAD prefix"}"
       | _ => none
     "F " ++ ";".intercalate (names ++ pfx)
+  | ["refdump"] =>
+    -- the human reference table itself: name, dimension vector, admissible scales
+    let rows := Spec.UnitRef.table.flatMap fun r => r.names.map fun n =>
+      s!"{hexEncode n.toList}={",".intercalate (r.dims.map toString)}={"|".intercalate (r.scales.map ratStr)}={if r.selfDocumented then 1 else 0}"
+    "F " ++ ";".intercalate rows
   | ["readings", h] =>
     let w := hexDecode h
     let rs := (Spec.Words.readings (w.length + 1) w).filterMap Spec.Words.compoundOf
